@@ -236,6 +236,23 @@ public:
         O["calleeInternal"] = !FD->isExternallyVisible();
         O["calleeNoReturn"] = FD->isNoReturn();
         O["calleeBuiltin"] = (int64_t)FD->getBuiltinID();
+        O["calleeVariadic"] = FD->isVariadic();
+        O["calleeNumParams"] = (int64_t)FD->getNumParams();
+        json::Array PT;
+        for (const ParmVarDecl *P : FD->parameters())
+          PT.push_back(P->getType().getCanonicalType().getAsString());
+        O["calleeParamTypes"] = std::move(PT);
+      } else if (const Expr *CalleeE = CE->getCallee()) {
+        QualType CT = CalleeE->getType();
+        if (const auto *PT = CT->getAs<PointerType>()) CT = PT->getPointeeType();
+        if (const auto *FPT = CT->getAs<FunctionProtoType>()) {
+          O["calleeVariadic"] = FPT->isVariadic();
+          O["calleeNumParams"] = (int64_t)FPT->getNumParams();
+          json::Array PTs;
+          for (QualType T : FPT->param_types())
+            PTs.push_back(T.getCanonicalType().getAsString());
+          O["calleeParamTypes"] = std::move(PTs);
+        }
       }
     } else if (const auto *UETT = dyn_cast<UnaryExprOrTypeTraitExpr>(S)) {
       O["trait"] = UETT->getKind() == UETT_SizeOf ? "sizeof" : "other";
